@@ -25,31 +25,32 @@ import (
 )
 
 type Spec struct {
-	Prop    string   // C04 | C05 | C06
-	Chains  []string // first chain is the one user sends go to
-	Tokens  []string // subset of FX, usdt, tok
-	Ledger  bool     // C04 oracles
-	Book    bool     // C05 oracles
-	ExtSim  bool     // C06: co-simulated external chain drives claims / heights
-	Calls   bool     // outgoing bridge calls
-	Inbound bool     // inbound bridge calls to an EOA
-	EVM     bool     // precompile entry points (crossChain from ERC-20, cancel, increase fee)
-	MaxSend int      // max pool transfers ever created
-	Params  bool     // C06: parameter changes
-	Prefill int      // pool transfers created by the set-up (a pool larger than one batch can hold)
-	Focus   string   // "batches": narrowed alphabet (one sender, two fee shapes, owner cancel, plain batch requests) for deeper batch life-cycle histories
+	Prop     string   // C04 | C05 | C06
+	Chains   []string // first chain is the one user sends go to
+	Tokens   []string // subset of FX, usdt, tok
+	Ledger   bool     // C04 oracles
+	Book     bool     // C05 oracles
+	ExtSim   bool     // C06: co-simulated external chain drives claims / heights
+	Calls    bool     // outgoing bridge calls
+	Inbound  bool     // inbound bridge calls to an EOA
+	EVM      bool     // precompile entry points (crossChain from ERC-20, cancel, increase fee)
+	MaxSend  int      // max pool transfers ever created
+	Params   bool     // C06: parameter changes
+	LateExec bool     // an observed bridge-call result stays parked; executing it is a separate, later step
+	Prefill  int      // pool transfers created by the set-up (a pool larger than one batch can hold)
+	Focus    string   // "batches": narrowed alphabet (one sender, two fee shapes, owner cancel, plain batch requests) for deeper batch life-cycle histories
 
-	w       *world.World
-	os      map[string][]scen.Oracle
-	toks    map[string]scen.Token
-	tracked []world.Actor
-	fxBase  map[string]sdkmath.Int
+	w               *world.World
+	os              map[string][]scen.Oracle
+	toks            map[string]scen.Token
+	tracked         []world.Actor
+	fxBase          map[string]sdkmath.Int
 	lastVoteFailure string
-	reverter common.Address
+	reverter        common.Address
 }
 
 func (s *Spec) Name() string {
-	return fmt.Sprintf("bridge/%s/%s/%s/calls=%v/in=%v/evm=%v/ext=%v/max=%d/focus=%s/prefill=%d", s.Prop, strings.Join(s.Chains, "+"), strings.Join(s.Tokens, "+"), s.Calls, s.Inbound, s.EVM, s.ExtSim, s.MaxSend, s.Focus, s.Prefill)
+	return fmt.Sprintf("bridge/%s/%s/%s/calls=%v/in=%v/evm=%v/ext=%v/max=%d/focus=%s/prefill=%d/late=%v", s.Prop, strings.Join(s.Chains, "+"), strings.Join(s.Tokens, "+"), s.Calls, s.Inbound, s.EVM, s.ExtSim, s.MaxSend, s.Focus, s.Prefill, s.LateExec)
 }
 
 // ---------------------------------------------------------------- model
@@ -87,6 +88,8 @@ type Call struct {
 	// ResultParked: the external chain's result for this call has been observed and is waiting to be executed; from
 	// then on the result settles the call, the timeout clean-up leaves it alone
 	ResultParked bool
+	ParkedEvent  uint64 // event nonce of the parked result (LateExec)
+	ParkedOK     bool   // the success flag it carries
 }
 
 type ExtChain struct {
@@ -108,18 +111,18 @@ type ExtEvent struct {
 }
 
 type Model struct {
-	Hold    map[string]map[string]int64 // account name -> token -> expected holdings (all representations)
-	Recs    map[uint64]*Rec
-	Batches map[string]*Batch // key chain/tok/nonce
-	Calls   map[uint64]*Call
-	Dep     map[string]int64
-	Wd      map[string]int64
-	Escrow  map[string]int64 // chain/tok -> what entered through the chain minus what left (external tokens)
+	Hold      map[string]map[string]int64 // account name -> token -> expected holdings (all representations)
+	Recs      map[uint64]*Rec
+	Batches   map[string]*Batch // key chain/tok/nonce
+	Calls     map[uint64]*Call
+	Dep       map[string]int64
+	Wd        map[string]int64
+	Escrow    map[string]int64 // chain/tok -> what entered through the chain minus what left (external tokens)
 	ExtSupply map[string]int64 // chain/tok -> executed withdrawals minus deposits (what can physically be deposited)
-	Nonce   map[string]uint64
-	ExtH    map[string]uint64
-	Ext     map[string]*ExtChain
-	NextRec map[string]uint64
+	Nonce     map[string]uint64
+	ExtH      map[string]uint64
+	Ext       map[string]*ExtChain
+	NextRec   map[string]uint64
 	// Sink: token -> amount delivered to contracts the scenario deployed (they keep what they receive)
 	Sink map[string]int64
 }
@@ -250,7 +253,9 @@ func (s *Spec) deposit(st *explore.State, ch, user, tok string, amt int64, must 
 
 func (s *Spec) sig(x string) string { return s.Prop + "/" + x }
 
-func (s *Spec) baseCoin(tok string, amt int64) sdk.Coin { return sdk.NewInt64Coin(s.toks[tok].Base, amt) }
+func (s *Spec) baseCoin(tok string, amt int64) sdk.Coin {
+	return sdk.NewInt64Coin(s.toks[tok].Base, amt)
+}
 
 func (s *Spec) holdings(ctx sdk.Context, a world.Actor, tok string) int64 {
 	h := scen.Holdings(s.w, ctx, s.toks[tok], a.Acc())
@@ -427,8 +432,11 @@ func (s *Spec) Ops(st *explore.State) []explore.Op {
 		}
 		if !s.ExtSim {
 			for n, c := range m.Calls {
-				if c.State == "open" {
+				if c.State == "open" && c.ParkedEvent == 0 {
 					ops = append(ops, s.callResultOp(n, true), s.callResultOp(n, false))
+				}
+				if c.ParkedEvent != 0 {
+					ops = append(ops, s.execParkedOp(n))
 				}
 			}
 		}
@@ -855,6 +863,29 @@ func (s *Spec) callResultOp(n uint64, success bool) explore.Op {
 			call.ResultParked = true // the observed result is parked before the timeout clean-up of this event runs
 		}
 		s.observeHeightEffects(c, ch, m.ExtH[ch])
+		if s.LateExec {
+			call.ParkedEvent, call.ParkedOK = en, success
+			res(c, true)
+			c.Outcome = "parked"
+			return
+		}
+		s.executeCallResult(c, call, en, success)
+	}}
+}
+
+// execParkedOp: somebody executes the parked result of call n.
+func (s *Spec) execParkedOp(n uint64) explore.Op {
+	return explore.Op{Name: fmt.Sprintf("ExecuteParkedResult(%d)", n), Run: func(c *explore.State) {
+		call := c.Model.(*Model).Calls[n]
+		s.executeCallResult(c, call, call.ParkedEvent, call.ParkedOK)
+	}}
+}
+
+// executeCallResult runs executeClaim for the observed result (event nonce en) of call and applies it to the model.
+func (s *Spec) executeCallResult(c *explore.State, call *Call, en uint64, success bool) {
+	m := c.Model.(*Model)
+	ch, n := call.Chain, call.Nonce
+	{
 		er := s.w.CallABI(c.Ctx, s.w.A("rel"), cctypes.GetAddress(), cctypes.GetABI(), nil, 1_000_000, "executeClaim", ch, new(big.Int).SetUint64(en))
 		res(c, er.Success())
 		if !er.Success() {
@@ -864,6 +895,7 @@ func (s *Spec) callResultOp(n uint64, success bool) explore.Op {
 			}
 			return
 		}
+		call.ParkedEvent = 0
 		if call.State != "open" {
 			c.Violate("settled-once", s.sig("bridge-call-settled-twice"), fmt.Sprintf("call %d was already %s", n, call.State))
 			return
@@ -877,7 +909,7 @@ func (s *Spec) callResultOp(n uint64, success bool) explore.Op {
 		} else {
 			s.refundCall(m, call)
 		}
-	}}
+	}
 }
 
 // callInOp: an inbound bridge call carrying 2 units of tok to an externally owned account.
